@@ -6,5 +6,5 @@ export GOFLAGS=-mod=mod GOPROXY=off GOSUMDB=off GOTOOLCHAIN=local
 mkdir -p .build evidence replays
 ./build.sh
 echo '{"op":"ping"}' | /root/.nvm/versions/node/v20.20.2/bin/node --experimental-vm-modules js/worker.js
-[ -x sched/setup.sh ] && ./sched/setup.sh
+./sched/build.sh
 echo setup ok
